@@ -21,6 +21,7 @@ type vector struct {
 
 type vectorSet struct {
 	bySel map[string]map[int][]vector // net -> selector -> vectors
+	heads map[string][]byte           // history: block hash -> header-with-proof content, every vector of the repository
 }
 
 var (
@@ -68,8 +69,16 @@ func scanPairs(path string) ([]vector, error) {
 	return out, nil
 }
 
+// layoutOf: the value of the first offset of an item = the size of its fixed part (-1: too short)
+func layoutOf(b []byte) int {
+	if len(b) < 4 {
+		return -1
+	}
+	return int(uint32(b[0]) | uint32(b[1])<<8 | uint32(b[2])<<16 | uint32(b[3])<<24)
+}
+
 func loadVectors(repo string) (*vectorSet, error) {
-	vs := &vectorSet{bySel: map[string]map[int][]vector{"history": {}, "beacon": {}, "state": {}}}
+	vs := &vectorSet{bySel: map[string]map[int][]vector{"history": {}, "beacon": {}, "state": {}}, heads: map[string][]byte{}}
 	files := map[string][]string{
 		"history": {"history/testdata/validation/1.yaml", "history/testdata/validation/15537393.yaml", "history/testdata/validation/7000000.yaml",
 			"types/history/testdata/header_with_proof.yaml", "history/testdata/validation/100.yaml", "history/testdata/test_data_collection_of_forks_blocks.yaml"},
@@ -89,8 +98,25 @@ func loadVectors(repo string) (*vectorSet, error) {
 					continue
 				}
 				sel := int(p.key[0])
+				if net == "history" && sel == 0 {
+					vs.heads[string(p.key[1:])] = p.content // every header vector, for seeding the store (the kept list is capped)
+				}
 				if len(vs.bySel[net][sel]) < 8 {
 					vs.bySel[net][sel] = append(vs.bySel[net][sel], p)
+				} else if f := layoutOf(p.content); f >= 0 {
+					// a layout (size of the fixed part, e.g. the third offset of a Shanghai body) not yet among the kept items
+					// replaces the last one, and moves to the front so that small numbers of concretisations reach it
+					seen := false
+					for _, q := range vs.bySel[net][sel] {
+						if layoutOf(q.content) == f {
+							seen = true
+						}
+					}
+					if !seen {
+						l := vs.bySel[net][sel]
+						copy(l[2:], l[1:len(l)-1])
+						l[1] = p
+					}
 				}
 			}
 		}
